@@ -107,6 +107,22 @@ def diff_doc(a, b, path="", tol=False, mode="tol"):
     return None if a == b else "%s: %r != %r" % (path, a, b)
 
 
+def _negative_entries(obj, depth=0):
+    try:
+        if obj.entries < 0:
+            return (obj.entries, type(obj).__name__)
+    except Exception:  # noqa: BLE001
+        return None
+    if depth > 12:
+        return None
+    for c in obj.children:
+        if c is not None and c is not obj.__dict__.get("value"):
+            r = _negative_entries(c, depth + 1)
+            if r is not None:
+                return r
+    return None
+
+
 def normalise_doc(d, top=True):
     """what C15 compares: optional name keys holding null are the same as absent; the version string
     of the header is not content"""
@@ -365,6 +381,9 @@ class PyExec:
                 got = normalise_doc(self.state(op[1]))
             except Exception as e:  # noqa: BLE001
                 return "violation: accepted a document (%s) that yields a container whose toJson raises %s" % (op[3], type(e).__name__)
+            neg = _negative_entries(P[op[1]])
+            if neg is not None:
+                return "violation: accepted a document (%s) with negative entries %r in a %s" % (op[3], neg[0], neg[1])
             want = normalise_doc(canon_doc(op[2]))
             d = diff_doc(got, want, mode="strict")
             return ("violation: accepted a document that is not a valid serialisation (%s): %s" % (op[3], d)) if d else "ok"
@@ -395,7 +414,7 @@ def op_to_wire(op):
             if d[gen.STR_COL] is None:
                 d[gen.STR_COL] = "NaN"
             rows.append([[cell_to_wire(c) for c in d], num_to_wire(ww)])
-        return ["$fills", "$" + op[1], rows]
+        return ["$fillnp", "$" + op[1], rows]
     if k == "add":
         return ["$add", "$" + op[1], "$" + op[2], "$" + op[3]]
     if k == "iadd":
@@ -416,8 +435,8 @@ def op_to_wire(op):
         return ["$drop", "$" + op[1]]
     if k == "goodrun":
         return ["$goodrun", "$" + op[1], [[[cell_to_wire(c) for c in d], num_to_wire(w)] for d, w in op[2]]]
-    if k == "immut":
-        return ["$immut", "$" + op[1], "$" + op[2]]
+    if k in ("immut", "prune"):
+        return ["$" + k, "$" + op[1], "$" + op[2]]
     if k in ("good", "iszero", "uniform", "liveok", "inv", "singlepath", "hastmpl", "nobins", "knownctype"):
         return ["$" + k, "$" + op[1]]
     if k in ("samebase", "same", "compat", "eqcontent"):
@@ -449,12 +468,11 @@ def same_reply(op, rp, rm):
     if op[0] == "json":
         return diff_doc(rp, rm)
     if op[0] == "fillsnp":
-        bad = [x for x in rm if x != "ok"]
-        if rp == "ok" and not bad:
+        if rp == rm:
             return None
         if isinstance(rp, str) and rp.startswith("violation"):
             return None   # reported by the oracle
-        return "fillsnp: impl %r vs model %r" % (rp, rm[:3])
+        return "fillsnp: impl %r vs model %r" % (rp, rm)
     if op[0] == "fills":
         if len(rp) != len(rm):
             return "fills: %r vs %r" % (rp, rm)
